@@ -20,6 +20,10 @@ def arrc(a, n): return {"c": "arrayc", "n": n, "a": [a]}     # length is a const
 def ref(a): return {"c": "ref", "n": "a", "a": [a]}
 
 ENCODED_AS = '<u32 as scale::HasCompact>::Type'
+# a local type of the generated program that is written to the wire AS an array or AS a tuple (encoded_as types
+# that are not type paths); see VALUE_HEADER
+RGB = {"c": "prim", "n": "crate::Rgb", "a": []}
+NONPATH_AS = {"[u8; 3]": "bytes", "(u16, u8)": "pair"}
 
 def doc(line):
     n = len(line) - len(line.lstrip(" "))
@@ -63,6 +67,9 @@ def from_plan(shape, feats, i, for_codec=True):
     if "nested" in F: fs.append(field(nm("n"), T2("btreemap", U8, T2("result", tup(), vec(tup(U8, BOOL))))))
     if "encoded_as" in F:
         fs.append(field(nm("e"), U32, encoded_as=ENCODED_AS))
+        if for_codec:            # encoded-as types that are no type paths: an array and a tuple
+            fs.append(field(nm("e3"), RGB, encoded_as="[u8; 3]"))
+            fs.append(field(nm("e4"), RGB, encoded_as="(u16, u8)"))
         if not for_codec:        # TypeInfo alone does not need the codec impls: any declared type, any described type
             fs.append(field(nm("e2"), ref(vec(U8)) if "lifetime" in F else vec(P("T")) if "generic" in F else tup(U8, BOOL), encoded_as="u64"))
     if "raw_ident" in F and named: fs.append(field("r#type", U8))
@@ -137,8 +144,10 @@ def rand_fields(r, named, params, skipped, allow_self, lifetimes, for_codec=True
                   rename=("ren%d" % j if named and r.random() < 0.15 else None),
                   docs=([" fdoc %d" % j] if r.random() < 0.3 else ()))
         if not for_codec and not skip and not compact and not is_phantom(ty) and r.random() < 0.1:
-            f["encoded_as"] = [r.choice(["u64", "scale::Compact<u32>", "Vec<bool>"])]
+            f["encoded_as"] = [r.choice(["u64", "scale::Compact<u32>", "Vec<bool>", "[u8; 3]", "(u16, u8)", "&'static str", "[bool]", "(u8)"])]
         fs.append(f)
+        if for_codec and r.random() < 0.06:
+            fs.append(field(("g%d" % j) if named else None, RGB, encoded_as=r.choice(sorted(NONPATH_AS))))
     for s in skipped:
         fs.append(field(("ph_%s" % s) if named else None, ph(P(s))))
     return fs
@@ -303,7 +312,9 @@ def val_impl(d):
         for k, f in enumerate(fs):
             if f["skip"] or is_phantom(f["ty"]): continue
             a = acc(k, f)
-            if f["compact"] or f.get("encoded_as"):
+            if f.get("encoded_as") and f["encoded_as"][0] in NONPATH_AS:
+                t = "Val::tree(&(%s).%s())" % (a, NONPATH_AS[f["encoded_as"][0]])
+            elif f["compact"] or f.get("encoded_as"):
                 t = 'json!({"k": "compact", "v": Val::tree(%s)})' % a
             else:
                 t = "Val::tree(%s)" % a
@@ -348,6 +359,23 @@ def needs_default_ok(d):
 HEADER = """#![allow(dead_code, unused_imports, unused_variables, non_camel_case_types, non_snake_case)]
 use vh::dv;
 """
+VALUE_HEADER = """
+#[derive(scale_info::TypeInfo, Clone, Copy, Default)] pub struct Rgb(pub u32);
+impl Rgb {
+    pub fn bytes(&self) -> [u8; 3] { let b = self.0.to_be_bytes(); [b[1], b[2], b[3]] }
+    pub fn pair(&self) -> (u16, u8) { ((self.0 >> 8) as u16, self.0 as u8) }
+}
+#[derive(scale::Encode)] pub struct RgbBytes([u8; 3]);
+impl<'a> From<&'a Rgb> for RgbBytes { fn from(r: &'a Rgb) -> Self { RgbBytes(r.bytes()) } }
+impl<'a> scale::EncodeAsRef<'a, Rgb> for [u8; 3] { type RefType = RgbBytes; }
+#[derive(scale::Encode)] pub struct RgbPair((u16, u8));
+impl<'a> From<&'a Rgb> for RgbPair { fn from(r: &'a Rgb) -> Self { RgbPair(r.pair()) } }
+impl<'a> scale::EncodeAsRef<'a, Rgb> for (u16, u8) { type RefType = RgbPair; }
+impl vh::val::Val for Rgb {
+    fn gen(rng: &mut rand::rngs::StdRng, _d: u32) -> Self { Rgb(rand::Rng::gen::<u32>(rng) & 0xff_ffff) }
+    fn tree(&self) -> serde_json::Value { vh::val::unnamed(vec![vh::val::Val::tree(&self.0)]) }
+}
+"""
 MODHEAD = "use scale_info::TypeInfo; use scale::Encode; use core::marker::PhantomData; use std::collections::BTreeMap; use vh::val::Val; use rand::{rngs::StdRng, Rng}; use serde_json::{json, Value};\n"
 
 def full_path(d):
@@ -359,7 +387,7 @@ def inst_ty(d):
     return full_path(d) + ("<" + ", ".join(inst) + ">" if inst else ""), subst
 
 def program(decls, seed, with_values, nvals):
-    out = [HEADER]
+    out = [HEADER + (VALUE_HEADER if with_values else "")]
     main = ["fn main() {", "    let mut o = dv::Out::new(%d, %d);" % (seed, nvals)]
     for d in decls:
         mods = ["d%d" % d["id"]] + d["mods"]
